@@ -31,6 +31,7 @@ func forall(lo, hi int, f func(int) bool) bool {
 func built(b strings.Builder) string { return b.String() }
 func fresh(x any) bool               { return true }
 func atHead[T any](x T) T            { return x }
+func iter() int                     { return 0 }
 
 type ev struct{}
 
@@ -523,6 +524,68 @@ func specStay(v int) bool {
 //@   ensures [progress] l.position > old(l.position)
 //@   ensures [closed@C07] l.position >= len(l.input) || l.input[l.position] == '`'
 
+// ---- braced unicode escapes \u{H...} (C07) ----
+
+// bracedN: number of hexadecimal digits starting at offset from, counted up to seven (7 = "more than six": the scanner
+// takes at most six digits). Written out, not recursive, so that every obligation about it is quantifier-free.
+func bracedN(s string, from int) int {
+	if !specHex(byteAt(s, from)) {
+		return 0
+	}
+	if !specHex(byteAt(s, from+1)) {
+		return 1
+	}
+	if !specHex(byteAt(s, from+2)) {
+		return 2
+	}
+	if !specHex(byteAt(s, from+3)) {
+		return 3
+	}
+	if !specHex(byteAt(s, from+4)) {
+		return 4
+	}
+	if !specHex(byteAt(s, from+5)) {
+		return 5
+	}
+	if !specHex(byteAt(s, from+6)) {
+		return 6
+	}
+	return 7
+}
+
+// hexAt: the number denoted by the n (at most six) hexadecimal digits starting at offset from -- ECMA-262 12.9.4, the MV
+// of HexDigits: MV(HexDigits HexDigit) = 16 * MV(HexDigits) + MV(HexDigit).
+func hexAt(s string, from int, n int) int {
+	if n <= 0 {
+		return 0
+	}
+	if n == 1 {
+		return specHexVal(byteAt(s, from))
+	}
+	if n == 2 {
+		return specHexVal(byteAt(s, from))*16 + specHexVal(byteAt(s, from+1))
+	}
+	if n == 3 {
+		return specHexVal(byteAt(s, from))*256 + specHexVal(byteAt(s, from+1))*16 + specHexVal(byteAt(s, from+2))
+	}
+	if n == 4 {
+		return specHexVal(byteAt(s, from))*4096 + specHexVal(byteAt(s, from+1))*256 + specHexVal(byteAt(s, from+2))*16 + specHexVal(byteAt(s, from+3))
+	}
+	if n == 5 {
+		return specHexVal(byteAt(s, from))*65536 + specHexVal(byteAt(s, from+1))*4096 + specHexVal(byteAt(s, from+2))*256 + specHexVal(byteAt(s, from+3))*16 + specHexVal(byteAt(s, from+4))
+	}
+	return specHexVal(byteAt(s, from))*1048576 + specHexVal(byteAt(s, from+1))*65536 + specHexVal(byteAt(s, from+2))*4096 + specHexVal(byteAt(s, from+3))*256 + specHexVal(byteAt(s, from+4))*16 + specHexVal(byteAt(s, from+5))
+}
+
+// isBraced: the element after offset h is `\u{`; bracedOK: ... followed by one to six digits and the closing brace.
+func isBraced(s string, h int) bool {
+	return byteAt(s, h+1) == '\\' && byteAt(s, h+2) == 'u' && byteAt(s, h+3) == '{'
+}
+func bracedOK(s string, h int) bool {
+	return isBraced(s, h) && 1 <= bracedN(s, h+4) && bracedN(s, h+4) <= 6 && byteAt(s, h+4+bracedN(s, h+4)) == '}'
+}
+func bracedVal(s string, h int) int { return hexAt(s, h+4, bracedN(s, h+4)) }
+
 // C07: what one iteration of the scanner writes for each kind of string element (c1, c2, ... are the bytes after the
 // cursor at the head of the iteration): ordinary bytes verbatim (a double quote gets a backslash: the printer re-quotes
 // with double quotes), unknown escapes verbatim, \xHH / \uHHHH decoded only when the value can be written raw.
@@ -543,6 +606,12 @@ func specStay(v int) bool {
 //@   loop 1 each [escape.u4.kept@C07] implies(byteAt(l.input, atHead(l.position)+1) == '\\' && byteAt(l.input, atHead(l.position)+2) == 'u' && byteAt(l.input, atHead(l.position)+3) != '{' && specHex(byteAt(l.input, atHead(l.position)+3)) && specHex(byteAt(l.input, atHead(l.position)+4)) && specHex(byteAt(l.input, atHead(l.position)+5)) && specHex(byteAt(l.input, atHead(l.position)+6)) && specStay(specHexVal(byteAt(l.input, atHead(l.position)+3))*4096+specHexVal(byteAt(l.input, atHead(l.position)+4))*256+specHexVal(byteAt(l.input, atHead(l.position)+5))*16+specHexVal(byteAt(l.input, atHead(l.position)+6))), writeSeq(evByte('\\'), evByte('u'), evByte(byteAt(l.input, atHead(l.position)+3)), evByte(byteAt(l.input, atHead(l.position)+4)), evByte(byteAt(l.input, atHead(l.position)+5)), evByte(byteAt(l.input, atHead(l.position)+6))))
 //@   loop 1 each [escape.u4.invalid@C07] implies(byteAt(l.input, atHead(l.position)+1) == '\\' && byteAt(l.input, atHead(l.position)+2) == 'u' && byteAt(l.input, atHead(l.position)+3) != '{' && !(specHex(byteAt(l.input, atHead(l.position)+3)) && specHex(byteAt(l.input, atHead(l.position)+4)) && specHex(byteAt(l.input, atHead(l.position)+5)) && specHex(byteAt(l.input, atHead(l.position)+6))), writeSeq(evByte('\\'), evByte('u')))
 //@   loop 2 invariant [digits@C07] len(hexDigits) == l.position-atEntry(l.position) && forall(0, len(hexDigits), func(k int) bool { return hexDigits[k] == byteAt(l.input, atEntry(l.position)+1+k) })
+//@   loop 2 invariant [hexrun@C07] len(hexDigits) <= 6 && bracedN(l.input, atEntry(l.position)+1) >= len(hexDigits) && isValid
+//@   loop 4 invariant [idx] iter()+1 <= len(hexDigits)
+//@   loop 4 invariant [value@C07] value == hexAt(l.input, l.position-len(hexDigits), iter()+1)
+//@   loop 1 each [escape.braced@C07] implies(bracedOK(l.input, atHead(l.position)) && bracedVal(l.input, atHead(l.position)) <= 0x10FFFF && !specStay(bracedVal(l.input, atHead(l.position))), ncalls("encodeUTF8") == 1 && callArg[int]("encodeUTF8", 0, 0) == bracedVal(l.input, atHead(l.position)) && l.position == atHead(l.position)+4+bracedN(l.input, atHead(l.position)+4))
+//@   loop 1 each [escape.braced.kept@C07] implies(bracedOK(l.input, atHead(l.position)) && (bracedVal(l.input, atHead(l.position)) > 0x10FFFF || specStay(bracedVal(l.input, atHead(l.position)))), ncalls("encodeUTF8") == 0 && writeSeq(evByte('}')) && l.position == atHead(l.position)+4+bracedN(l.input, atHead(l.position)+4))
+//@   loop 1 each [escape.braced.invalid@C07] implies(isBraced(l.input, atHead(l.position)) && !bracedOK(l.input, atHead(l.position)), ncalls("encodeUTF8") == 0 && ite(bracedN(l.input, atHead(l.position)+4) == 0 && byteAt(l.input, atHead(l.position)+4) == '}', writeSeq(evByte('}')) && l.position == atHead(l.position)+4, writeSeq() && l.position == min(atHead(l.position)+3+min(bracedN(l.input, atHead(l.position)+4), 6), len(l.input))))
 //@   loop 3 before [kept.head@C07] writeSeq(evByte('\\'), evByte('u'), evByte('{'))
 //@   loop 3 each [copy@C07] writeSeq(evByte(digit))
 //@   loop 5 before [kept.head@C07] writeSeq(evByte('\\'), evByte('u'), evByte('{'))
